@@ -16,6 +16,7 @@ PID = 'C07'
 def run(tier, seed, replay=None):
     t0 = time.time()
     V = C.Verdict(PID, tier, seed)
+    O.FAR_PROB = 0.08     # some objects live far from the origin on compressed knot vectors
     l0 = C.l0_check(PID, thorough=(tier == 'thorough'))
     build_pyx.load_splipy()
     import numpy as np
